@@ -204,7 +204,8 @@ class ParentTranslator:
     def ref_assigns(self, parent, copy=False):
         result = []
         for k, v in parent.refs.items():
-            if k[0] != "_":
+            # a cells hides a model-level reference of the same name in its space
+            if k[0] != "_" and k not in getattr(parent, 'cells', ()):
                 if copy:
                     result.append('self.' + k + ' = other.' + k)
                 else:
@@ -220,7 +221,7 @@ class ParentTranslator:
     def ref_copies(self, parent):
         result = []
         for k, v in parent.refs.items():
-            if k[0] == "_":
+            if k[0] == "_" or k in parent.cells:
                 continue
 
             base_k = 'base.' + k
